@@ -15,7 +15,8 @@
  *   b64i <targsize> <hex>  rfbBase64PtoN(src, src, targsize)   (in place, as the decoder does)
  *   sha1 <hex>             hash_sha1
  *   hs <hex>               webSocketsCheck() on a socketpair fed with the request bytes
- *   sess <tcp|wsbin|wsb64> <hexC> <frames> <sched>
+ *   sess <tcp|wsbin|wsb64|wsrawbin|wsrawb64> <hexC> <frames> <sched>
+ *                          (wsraw*: hexC is the wire image after the HTTP request, frames = '-')
  *                          a complete server session on a socketpair: RFB client bytes C sent plain or
  *                          wrapped in WebSocket frames (<frames>: payload sizes, 'n+' = FIN clear, 'pK' = ping
  *                          with K bytes, '-' = one frame), server-side read() segmented by <sched>
@@ -35,6 +36,7 @@
 #include <fcntl.h>
 #include <sys/socket.h>
 #include <stdarg.h>
+#include <signal.h>
 #include <sys/ioctl.h>
 #include "ws_decode.h"
 #include "base64.h"
@@ -203,9 +205,15 @@ static int unwrap(const unsigned char *p, size_t n, int b64, vs_buf *out) {
   return 1;
 }
 
+static void on_alarm(int sig) {
+  static const char m[] = "sess WEDGE rfbProcessEvents did not return within 6 s\n";
+  (void)sig; fflush(stdout); if (write(1, m, sizeof m - 1) < 0) {} _exit(3);
+}
+
 static void do_sess(char *arg) {
   char *mode = strtok(arg, " "), *hexC = strtok(NULL, " "), *frames = strtok(NULL, " "), *sched = strtok(NULL, " ");
-  int ws = mode && mode[0] == 'w', b64 = mode && !strcmp(mode, "wsb64");
+  int ws = mode && mode[0] == 'w', raw = mode && !strncmp(mode, "wsraw", 5);
+  int b64 = mode && (!strcmp(mode, "wsb64") || !strcmp(mode, "wsrawb64"));
   unsigned char *C; size_t nC, pos = 0; vs_buf wire = {0}, srv = {0}, rfbout = {0};
   int sv[2], alive, frames_ok = 1, hs_ok = 0; rfbScreenInfoPtr s; rfbClientPtr cl; size_t hdr_end = 0;
   static const char *req_bin = "GET /websockify HTTP/1.1\r\nHost: h\r\nUpgrade: websocket\r\nConnection: Upgrade\r\n"
@@ -224,7 +232,8 @@ static void do_sess(char *arg) {
   if (ws) {
     snprintf(req, sizeof req, req_bin, b64 ? "base64" : "binary");
     vs_buf_add(&wire, (unsigned char *)req, strlen(req));
-    {
+    if (raw) vs_buf_add(&wire, C, nC);      /* C is the wire image itself (frames built by the generator) */
+    else {
       char *tok = strtok(frames, ","); int cont = 0;
       while (pos < nC || (tok && tok[0] == 'p')) {
         size_t n; int fin = 1, ping = 0;
@@ -252,6 +261,7 @@ static void do_sess(char *arg) {
     while (tok && tok[0] != '-') {
       ev_t e; e.k = 0; e.kind = tok[0] == 'a' ? 1 : 0; if (!e.kind) e.k = atol(tok);
       g_sev = (ev_t *)realloc(g_sev, (g_nsev + 1) * sizeof(ev_t)); g_sev[g_nsev++] = e; tok = strtok(NULL, ","); } }
+  alarm(6);                        /* watchdog: rfbProcessEvents must return */
   cl = rfbNewClient(s, sv[0]);     /* the HTTP upgrade request is read here, unsegmented */
   g_wrap_fd = sv[0];               /* the read schedule applies to the RFB / frame bytes */
   if (cl) {
@@ -270,6 +280,7 @@ static void do_sess(char *arg) {
     }
   }
   g_wrap_fd = -1;
+  alarm(0);
   alive = 0;
   { rfbClientIteratorPtr it = rfbGetClientIterator(s); alive = rfbClientIteratorNext(it) != NULL; rfbReleaseClientIterator(it); }
   if (ws) {
@@ -288,6 +299,7 @@ static void do_sess(char *arg) {
 int main(void) {
   char *line = NULL; size_t cap = 0; ssize_t ll;
   rfbLog = nolog; rfbErr = nolog;
+  signal(SIGALRM, on_alarm);
   new_ctx();
   while ((ll = getline(&line, &cap, stdin)) > 0) {
     char *arg;
